@@ -85,8 +85,15 @@ func step(args []string) int {
 		if err := fs.TriggerFailover(ctx, db.Opts.StoresFolders, true, l2); err != nil {
 			out.Err = "failover: " + err.Error()
 		}
+		// the drive that was active is gone from here on: whatever is read now comes from the former
+		// passive copy (a failover that silently did not happen shows as an unreadable database)
+		aDir := db.Opts.StoresFolders[0]
+		os.Rename(aDir, aDir+".off")
+		os.MkdirAll(aDir, 0o755)
 		d := sopx.DumpDB(db)
 		out.Dump = &d
+		os.RemoveAll(aDir)
+		os.Rename(aDir+".off", aDir)
 	case "reinstate":
 		if err := database.ReinstateFailedDrives(ctx, db.Opts); err != nil {
 			out.Err = "reinstate: " + err.Error()
@@ -264,6 +271,13 @@ func history(r *report.Run, i int) {
 		return
 	}
 	r.Eval(fp, true)
+	if os.Getenv("VERIF_C27_ONLY") != "" {
+		fmt.Fprintf(os.Stderr, "phase1 replstat=%q\nafter failover replstat=%q\n", o.ReplStat, of.ReplStat)
+	}
+	if of.Dump.Err != "" {
+		viol("unreadable-after-failover-with-the-former-active-drive-gone", map[string]any{"err": of.Dump.Err, "replstat": of.ReplStat, "variant": variant})
+		return
+	}
 	if d := txn.DiffContent(*of.Dump, model.Dump()); d != "" {
 		cls := "passive-differs-after-failover"
 		if strings.Contains(d, "COUNT-ONLY") {
@@ -298,6 +312,6 @@ func Run(r *report.Run) int {
 	return r.Finish(rule, assumptions, 8)
 }
 
-const rule = "histories over a replicated layout (two stores folders A/B + erasure-coded blobs d2p1 over three folders, database.* public path, one child process per step): store creation, 4-7 committed transactions of mixed shapes over two stores of varying value placement, a store drop; variants break the passive side before further commits (passive root / store folder replaced by a plain file, registry segment replaced by a directory), then restore it, ReinstateFailedDrives and commit more; finally fs.TriggerFailover in a fresh process and a dump through the former passive folder; oracle: every commit succeeds, the active dump equals the model, and the dump after failover equals the model (stores, items, counts); fingerprint = (variant, placements, history); non-trivial = the failover dump was taken"
+const rule = "histories over a replicated layout (two stores folders A/B + erasure-coded blobs d2p1 over three folders, database.* public path, one child process per step): store creation, 4-7 committed transactions of mixed shapes over two stores of varying value placement, a store drop; variants break the passive side before further commits (passive root / store folder replaced by a plain file, registry segment replaced by a directory), then restore it, ReinstateFailedDrives and commit more; finally fs.TriggerFailover in a fresh process, the formerly active folder is moved away, and a dump is taken (so it can only come from the former passive copy); oracle: every commit succeeds, the active dump equals the model, and the dump after failover equals the model (stores, items, counts); fingerprint = (variant, placements, history); non-trivial = the failover dump was taken"
 
 var assumptions = []string{"standalone in-memory L2; each step in its own process (replication state is process-global)", "passive-side failure = path element of the wrong file type (ENOTDIR/EISDIR)"}
